@@ -302,6 +302,7 @@ func GenAction(t *rapid.T, p *Profile, cfg *Config, ops []string) Action {
 		a.Sel = rapid.IntRange(0, 59).Draw(t, "span")
 	case "saveload":
 		a.N = rapid.IntRange(0, 10).Draw(t, "tmax")
+		a.Sel = rapid.IntRange(0, 9).Draw(t, "slfile") // 1: through SaveCacheToFile / LoadCacheFromFile (a file in a directory that does not exist yet)
 		cls := rapid.IntRange(0, 3).Draw(t, "slcls")
 		switch cls {
 		case 0:
